@@ -199,6 +199,7 @@ func CfgC07() PropCfg {
 	w.CreateFixed, w.CreateBatch = 10, 10
 	w.MaxAuctions = 5
 	w.PerturbPct = 6
+	w.Reimport = 5
 	w.Extreme = Tier() == "thorough" || os.Getenv("VERIF_EXTREME") == "1"
 	return PropCfg{ID: "C07", Weights: w, MinOps: 12, MaxOps: 70, DrivePct: 80,
 		New:        func() Monitor { return monC07{} },
